@@ -156,6 +156,7 @@ class ReactivePopulations(ReactiveFluxes):
         T, pi, q, so, si, mid = self.pieces(A)
         r = np.asarray(R, dtype=float).flatten()
         d = pi * q * (1 - q)
-        return [('probability-vector', abs(r.sum() - 1) < 1e-9 and bool((r >= -1e-12).all())),
+        # non-negativity up to the accuracy of the committor solve (the rare-event chain has condition number ~1e7: q may exceed 1 by ~1e-9)
+        return [('probability-vector', abs(r.sum() - 1) < 1e-9 and bool((r >= -1e-8).all())),
                 ('vanishes-on-sources-and-sinks', bool(np.allclose(r[so + si], 0, atol=1e-12))),
                 ('definition', bool(np.allclose(r, d / d.sum(), rtol=1e-6, atol=1e-12)))]
